@@ -52,6 +52,18 @@ ASSUMPTIONS = [
     "end): no effect at all.  A repeated label on a column the formula USES is not explored: the "
     "unchanged library refuses it (`data[name]` is then a DataFrame: ValueError 'unrecognized type') "
     "and the statement does not say what such a frame means",
+    "unused columns whose LABELS are not strings (the integer years 2020 / 2021 of a pivot, a float, a "
+    "tuple, a Timestamp, None-free mixes of them, next to the string-labelled columns, at the front / "
+    "in the middle / at the end, with and without missing values): no effect at all, like any other "
+    "unused column.  A non-string label on a column the formula uses is not explored (a formula names "
+    "its variables by strings)",
+    "LONG frames (4100 to 9000 rows, never a multiple of 4096 or of 1024: a generated frame tiled with "
+    "jittered numerics, so every categorical keeps its levels) under formulas with one or two "
+    "group-specific terms: rows permuted => rows of response / common / group permuted (design_matrices), "
+    "and evaluate_new_data of the group-specific and common parts on a long new frame and on its row "
+    "permutation; 3 long cases in the quick tier, 12 in the thorough one.  The FULL matrices of both runs "
+    "(every row) go through the same Spec.C08 relation of the Lean driver (c08_spec, rule `perm`) — "
+    "no sampling, no Python-side comparison",
 ]
 TRUSTED = ["pandas positional access (.values), np.unique, np.mean/std/percentile"]
 
@@ -484,6 +496,149 @@ def duplicate_unused_variants(r, df):
     return out
 
 
+def odd_label_variants(r, df):
+    """frames with extra columns the formula cannot mention because their labels are not strings:
+    integers (the years of a pivot), a float, a tuple, a Timestamp; the string-labelled columns keep
+    their labels -> [(rule, frame, None)] (variant numbers 50, 51, 52)"""
+    n = len(df)
+
+    def col(kind):
+        if kind == 0:
+            return [r.randrange(0, 50) for _ in range(n)]
+        if kind == 1:
+            return [np.nan if r.random() < 0.3 else r.randrange(-4, 5) / 2 for _ in range(n)]
+        return [r.choice(["p", "q", None]) for _ in range(n)]
+
+    def block(labels):
+        t = pd.DataFrame({f"c{i}_": col(r.randrange(3)) for i in range(len(labels))}, index=df.index)
+        t.columns = pd.Index(list(labels), dtype=object)
+        return t
+    years = [2020 + i for i in range(r.randrange(1, 4))]
+    r.shuffle(years)
+    out = []
+    # integer labels (a pivot over years concatenated to the table), at the end or at the front
+    a = [df, block(years)]
+    if r.random() < 0.5:
+        a.reverse()
+    out.append(("same", pd.concat(a, axis=1), None))
+    # a float and a tuple label, in the middle of the string-labelled columns
+    k = r.randrange(1, len(df.columns))
+    mixed = pd.concat([df.iloc[:, :k], block([r.choice([0.5, -1.0, 3.25]), ("t", r.randrange(3))]),
+                       df.iloc[:, k:]], axis=1)
+    out.append(("same", mixed, None))
+    # integer 0 / negative integer, a Timestamp and a tuple of numbers together
+    labels = [r.choice([0, -1, 7]), pd.Timestamp("2021-03-01"), (1, 2)]
+    r.shuffle(labels)
+    out.append(("same", pd.concat([block(labels[:1]), df, block(labels[1:])], axis=1), None))
+    return out
+
+
+LONG_COMMON = ["", "", "x", "f", "x + f", "z:h", "center(x)", "g", "scale(z)"]
+
+
+def long_frame(r, n):
+    """a generated frame tiled to `n` rows, numerics jittered by exactly representable amounts"""
+    small = designs.gen_frame(r, n=r.randrange(16, 25)).reset_index(drop=True)
+    m = len(small)
+    idx = list(range(m)) + [r.randrange(m) for _ in range(n - m)]
+    r.shuffle(idx)
+    df = small.iloc[idx].reset_index(drop=True)
+    df["x"] = df["x"].to_numpy() + np.asarray([r.randrange(-3, 4) for _ in range(n)], dtype=float)
+    df["z"] = df["z"].to_numpy() + np.asarray([r.randrange(-4, 5) / 4 for _ in range(n)])
+    df["y"] = df["y"].to_numpy() + np.asarray([r.randrange(-4, 5) / 2 for _ in range(n)])
+    return df
+
+
+def long_rows(r):
+    while True:
+        n = r.randrange(4100, 9001)
+        if n % 1024:
+            return n
+
+
+def fast_mat(a):
+    """designs.mat for large float matrices (same exact fractions, via float.as_integer_ratio)"""
+    a = np.asarray(a, dtype=float)
+    if a.ndim == 1:
+        a = a[:, None]
+    return [[None if v != v else list(v.as_integer_ratio()) for v in row] for row in a.tolist()]
+
+
+def long_case(seed, k, tier):
+    keep = designs.mat
+    designs.mat = fast_mat
+    try:
+        return long_case_(seed, k, tier)
+    finally:
+        designs.mat = keep
+
+
+def long_case_(seed, k, tier):
+    """-> (case, pairs, meta, failures) for one long frame: design_matrices on the frame and on a row
+    permutation of it; evaluate_new_data (common, group) on a long new frame and on its permutation"""
+    r = rng_for(seed, "c08", "long", k)
+    n = long_rows(r)
+    df = long_frame(r, n)
+    base = None
+    for _ in range(6):                                # a formula the implementation accepts
+        groups = [designs.gen_group(r)]
+        if r.random() < 0.35:
+            groups.append(designs.gen_group(r))
+        common = r.choice(LONG_COMMON)
+        formula = "y ~ " + " + ".join(([common] if common else []) + groups)
+        base = snapshot(formula, df)
+        if "err" not in base and base["mats"]["group"] is not None:
+            break
+    case = {"formula": formula, "seed_path": k, "long_rows": n}
+    pairs, meta, failures = [], [], []
+    if "err" in base:
+        return case, pairs, meta, failures, base["err"]
+    sigma = list(range(n))
+    r.shuffle(sigma)
+    other = snapshot(formula, df.iloc[sigma])
+    if "err" in other:
+        failures.append({"case": dict(case, variant="long:perm"), "impl": strip_dm(other),
+                         "expected": "rows permuted", "finding": None,
+                         "why": f"the row-permuted long frame raises {other['err']} although the base "
+                                "frame is accepted"})
+    else:
+        for part in ("response", "common", "group"):
+            if base["mats"][part] is None and other["mats"][part] is None:
+                continue
+            pairs.append({"rule": "perm", "base": base["mats"][part], "other": other["mats"][part],
+                          "sigma": sigma, "meta_base": base["meta"], "meta_other": other["meta"],
+                          "params_base": base["params"], "params_other": other["params"]})
+            meta.append(("long:perm", "perm", part))
+    # prediction on a long new frame (another length) and on its row permutation
+    n2 = long_rows(r)
+    # (levels seen at training only: the new frame is tiled from training rows)
+    new = df.iloc[[r.randrange(n) for _ in range(n2)]].reset_index(drop=True)
+    sigma2 = list(range(n2))
+    r.shuffle(sigma2)
+    dm = base["_dm"]
+    for part in ("group", "common"):
+        obj = getattr(dm, part)
+        if obj is None:
+            continue
+        try:
+            b = designs.mat(obj.evaluate_new_data(new).design_matrix)
+        except Exception as e:  # noqa
+            continue                                   # refused on the base frame: not compared
+        try:
+            o = designs.mat(obj.evaluate_new_data(new.iloc[sigma2]).design_matrix)
+        except Exception as e:  # noqa
+            failures.append({"case": dict(case, variant="long:new-perm", part=part, new_rows=n2),
+                             "impl": {"err": type(e).__name__, "msg": str(e)[:80]},
+                             "expected": "rows permuted", "finding": None,
+                             "why": f"evaluate_new_data ({part}) raises {type(e).__name__} on the "
+                                    "row-permuted long new frame although the frame is accepted"})
+            continue
+        pairs.append({"rule": "perm", "base": b, "other": o, "sigma": sigma2, "meta_base": "",
+                      "meta_other": "", "params_base": [], "params_other": []})
+        meta.append(("long:new-perm", "perm", part))
+    return case, pairs, meta, failures, None
+
+
 # variant numbers: 0-8 `variants`, 9 a named index on the complete frame; 100-101 `nan_variants`,
 # 102-103 named indexes on the frame with missing values
 
@@ -501,13 +656,20 @@ def explore(tier, seed, res=None, replay=None):
                 "variants per frame (1-based, reversed, strings, dates, non-unique without 0, floats, "
                 "MultiIndex, rows permuted under a RangeIndex) and evaluate_new_data on relabelled / "
                 "permuted new frames, evaluate_new_data on one frame object before and after in-place "
-                "reorderings / relabellings of its rows, frames with unused columns sharing a label; "
+                "reorderings / relabellings of its rows, frames with unused columns sharing a label, "
+                "frames with unused columns under integer / float / tuple / Timestamp labels, a few long "
+                "frames (4100-9000 rows) with group-specific terms under row permutation (design and "
+                "evaluate_new_data); "
                 "non-trivial = a pair whose design has a categorical or stateful "
                 "atom; distinct by (formula, variant)")
     n_cases = 300 if tier == "quick" else 3500
     cases = []
-    if replay is not None:
+    long_ks = list(range(3 if tier == "quick" else 12))
+    if replay is not None and "long_rows" in replay:
+        long_ks = [replay.get("seed_path", 0)]
+    elif replay is not None:
         cases = [(replay["formula"], replay.get("seed_path", 0))]
+        long_ks = []
     else:
         for f in CORPUS:
             cases.append((f, len(cases)))
@@ -578,7 +740,13 @@ def explore(tier, seed, res=None, replay=None):
         dups = list(enumerate(dups, start=40))
         if tier == "quick":
             dups = [dups[r5.randrange(len(dups))]]
-        numbered = list(enumerate(all_variants)) + list(enumerate(more, start=20)) + dups
+        # unused columns with integer / float / tuple / Timestamp labels (variant numbers 50-52; quick
+        # tier: one of them)
+        r6 = rng_for(seed, "c08", path, "odd-labels")
+        odd = list(enumerate(odd_label_variants(r6, df), start=50))
+        if tier == "quick":
+            odd = [odd[r6.randrange(len(odd))]]
+        numbered = list(enumerate(all_variants)) + list(enumerate(more, start=20)) + dups + odd
         for k, (rule, d2, sigma) in numbered:
             other = snapshot(formula, d2, [resp[i] for i in sigma] if sigma else resp, extra_names)
             if "err" in other:
@@ -667,6 +835,20 @@ def explore(tier, seed, res=None, replay=None):
         res.traces += 1
         if len(res.samples) < 5:
             res.samples.append({"formula": formula, "variants": len(meta)})
+    # long frames with group-specific terms (all rows go through the same relation)
+    for k in long_ks:
+        case, pairs, meta, failures, err = long_case(seed, k, tier)
+        res.evaluations += 1
+        res.failures += failures
+        if err:
+            res.count("impl_error (long frame):" + err)
+            continue
+        res.count("long frames (more than 4096 rows) with group-specific terms")
+        res.count("pairs over long frames", len(pairs))
+        res.nontrivial.add((case["formula"], "long", k))
+        reqs.append({"op": "c08_spec", "pairs": pairs})
+        owners.append((case, meta))
+        res.traces += 1
     for (case, meta), sp in zip(owners, ask(reqs)):
         for (k, rule, part), v in zip(meta, sp["pairs"]):
             res.count("pairs_checked")
